@@ -544,6 +544,16 @@ CONSUMERS |= {"iter"}
 CONSUMERS |= {"map"}
 # member classes whose `__hash__` is Python code that can raise: building a set of them evaluates it for every element
 X5_HASHED_MEMBERS = {("packaging.specifiers", "Specifier")}
+
+
+def _x8_comp_ctor(a):
+    """x8: the name K when `a` is a generator expression / list comprehension over one `for` whose element is the direct
+    constructor call `K(…)` (the members of `frozenset(a)` are then instances of K, as with `map(K, …)`); else None"""
+    if isinstance(a, (ast.GeneratorExp, ast.ListComp)) and len(a.generators) == 1 and not a.generators[0].is_async \
+            and isinstance(a.elt, ast.Call) and isinstance(a.elt.func, ast.Name):
+        bound = {t.id for t in ast.walk(a.generators[0].target) if isinstance(t, ast.Name)}
+        return None if a.elt.func.id in bound else a.elt.func.id
+    return None
 # --- x5 end -----------------------------------------------------------------------------------------------------------
 # --- x6: sixth round (platform remainder, C16; run-time additions in lean/PkgModel/PyPlat.lean, PyElf.lean) --------------
 SELECTED += [
@@ -4165,6 +4175,9 @@ class Fn:
                     and len(args[0].args) == 2 and isinstance(args[0].args[0], ast.Name):
                 v = self.globals.get(args[0].args[0].id)
                 k = v if inspect.isclass(v) and self.ctx.is_tracked(v) else None
+            if k is None and _x8_comp_ctor(args[0]) is not None and _x8_comp_ctor(args[0]) not in self.locals:      # --- x8
+                v = self.globals.get(_x8_comp_ctor(args[0]))
+                k = v if inspect.isclass(v) and self.ctx.is_tracked(v) else None
             if k is None and isinstance(args[0], ast.BoolOp) and isinstance(args[0].op, ast.Or) and all(
                     self.elem_simple(v) or (isinstance(v, ast.List) and not v.elts) for v in args[0].values):
                 k = "plain"                                   # `set(xs or [])` with xs a list of strings by annotation
@@ -5777,6 +5790,9 @@ class Ctx:
                         if isinstance(a, ast.Call) and isinstance(a.func, ast.Name) and a.func.id == "map" and len(a.args) == 2 \
                                 and isinstance(a.args[0], ast.Name):
                             g = init.__globals__.get(a.args[0].id)
+                            k = g if inspect.isclass(g) and self.is_tracked(g) else None
+                        elif _x8_comp_ctor(a) is not None:        # --- x8: `frozenset(K(x) for x in … [if …])` ≡ `frozenset(map(K, …))`
+                            g = init.__globals__.get(_x8_comp_ctor(a))
                             k = g if inspect.isclass(g) and self.is_tracked(g) else None
                         elif isinstance(a, ast.Name):
                             ann = next((p.annotation for p in fn.args.args + fn.args.kwonlyargs if p.arg == a.id), None)
